@@ -113,6 +113,29 @@ def run(ctx):
                         ctx.fail("other-rows-depend-on-threshold", case, {"at_t": r, "at_0": r0})
                 if r["solved"] and not r0["solved"] and confirmed(inp, t, lambda x, y: x["solved"] and not y["solved"]):
                     ctx.fail("raising-threshold-solved-a-row", case, {})
+    # the configuration matrix: every run carries its threshold; cached runs written under another threshold included
+    import matrix
+    conf_of = {}
+    for run in matrix.runs(ctx):
+        if run["error"] or len(run["rows"]) != len(run["given"]) or "fed in again" in run["config"]:
+            continue
+        t = run.get("t", 0) or 0
+        ctx.count("matrix", run["config"][:40])
+        for g, r in zip(run["given"], run["rows"]):
+            if r["solved_by"] != "mcs-based" or r["confidence"] is None:
+                continue
+            ctx.evaluations += 1
+            case = {"input": g, "threshold": t, "matrix": run["config"]}
+            c = r["confidence"]
+            if not (0.0 <= c <= 1.0):
+                ctx.fail("confidence-out-of-range", case, {"confidence": c})
+            if r["solved"] != (c >= t):
+                ctx.fail("threshold-not-exact", case, {"confidence": c, "solved": r["solved"], "issue": r["issue"]})
+            if not r["solved"] and "{:.2%}".format(t) not in (r["issue"] or ""):
+                ctx.fail("issue-does-not-name-threshold", case, {"issue": r["issue"]})
+            if g in conf_of and conf_of[g][0] != c:
+                ctx.fail("confidence-depends-on-threshold", case, {"here": c, "there": conf_of[g][0], "other_run": conf_of[g][1]})
+            conf_of.setdefault(g, (c, run["config"]))
     ctx.sample({"thresholds": ths, "example_input": inputs[0]})
     pipe.eval_pipeline_cases(ctx, allb, "c13")
 
